@@ -252,6 +252,7 @@ def run(P, R, tier):
     cutback_rule(P, R)
     nullthenuse_rule(P, R)
     registered_rule(P, R)
+    samehint_rule(P, R)
     replacegrow_rule(P, R)
     stdthrow_census(P, R, reach)
 
@@ -1811,3 +1812,28 @@ def registered_rule(P, R):
                             "initial_solutions dereferences find(%s) == end()" % (v, got or "no condition", v, want[0], v), file=g["file"], line=c[1], function=g["q"])
     if n < 1:
         R.anchor_missing(RULE, "no function both registers and stores a solution number")
+
+
+def samehint_rule(P, R):
+    """`TRANSPORT -same_model cells` lets the user state that a cell has the reactants of the cell calculated before, so that the model
+    is kept.  quick_setup, which runs when check_same_model answers TRUE, writes master[i]->unknown->moles for every element present; the
+    answer may therefore be given from the hint only after the loop that compares the elements with the kept model - otherwise an element
+    arriving by transport in a flagged cell is written through a null pointer."""
+    RULE = "C08.samehint"
+    R.rule(RULE, "check_same_model trusts the -same_model hint only after it has compared the elements with the kept model", minimum=1)
+    f = P.one("Phreeqc::check_same_model")
+    hints = [x for x in T.walk(f["body"]) if x[0] == "If" and any(y[0] == "Member" and y[2].endswith("::same_model") for y in T.walk(x[2]))
+             and any(y[0] == "Return" for y in T.walk(x[3]))]
+    loops = [x for x in T.walk(f["body"]) if x[0] == "For" and T.is_node(x[3]) and any(y[0] == "Member" and y[2] == "Phreeqc::master" for y in T.walk(x[3]))
+             and any(y[0] == "Return" for y in T.walk(x[5]))]
+    if not hints:
+        R.ok(RULE, "check_same_model", "no shortcut on the -same_model hint")
+        return
+    if not loops:
+        R.anchor_missing(RULE, "check_same_model: loop over the master species not found")
+        return
+    if all(h[1] > loops[0][1] for h in hints):
+        R.ok(RULE, "check_same_model", "hint at line %d, after the element loop at line %d" % (hints[0][1], loops[0][1]))
+    else:
+        R.violation(RULE, "check_same_model", "the -same_model hint returns TRUE (line %d) before the elements are compared with the kept model (loop at line %d): quick_setup then writes "
+                    "through master[i]->unknown == NULL for an element the kept model lacks" % (hints[0][1], loops[0][1]), file=f["file"], line=hints[0][1], function=f["q"])
